@@ -1,5 +1,6 @@
 """C20 — Readiness wakes exactly the waiting coroutine, promptly (structural clauses)."""
 from rules.common import start
+from rules import wave2
 from rules import selector
 
 
@@ -17,4 +18,6 @@ def run(tier):
     selector.poll_lock_rule(run, f, "C20-POLL-LOCK")
     # a wait is only woken by readiness if the descriptor really is registered: the interest machine of C21
     selector.machine_rule(run, f, "C20-INTEREST-MACHINE")
+    # clauses added for the wave-2 seeds (rules/wave2.py; DESIGN 12a)
+    wave2.poll_every_round_rule(run, f, "C20-POLL-EVERY-ROUND")
     return run.finish()
